@@ -309,7 +309,7 @@ def install_probes():
                     if not isinstance(e.data, str):
                         st.extend(e.data)
                 lost = []
-                for i, v in cnt.items():
+                for i, v in (cnt.items() if len(cnt) <= 4000 else ()):
                     if v == 1 and i not in after_ids:
                         # legitimate only if some descendant was shared
                         if not _has_shared_descendant(objs[i], cnt):
